@@ -28,7 +28,7 @@ PROBES = {
             'event-form-single', 'event-form-multi', 'event-form-data', 'two-events-one-chunk',
             'segmented-delivery'],
     'C03': ['cut-mid-line', 'cut-mid-data-block', 'cut-during-auth', 'cut-with>=3-queued', 'cut-idle',
-            'post-loss-submissions>=2', 'when-disconnected-before', 'when-disconnected-after', 'cut-clean',
+            'post-loss-submissions>=2', 'submit-from-disconnect-observer', 'when-disconnected-before', 'when-disconnected-after', 'cut-clean',
             'cut-unclean', 'fault:connection-cut'],
 }
 
@@ -605,12 +605,18 @@ class CtlRun(object):
     # ------------------------------------------------------------------ C03 ops
     def op_when_disconnected(self):
         rec = dict(fired=0, when='after' if self.cut_done else 'before')
+        # the observer may itself submit commands from inside its notification
+        rec['submit'] = self.ch.weighted([3, 2, 1], 'wdsubmit')
         self.wd.append(rec)
         self.sim.probe('when-disconnected-' + rec['when'])
         d = self.proto.when_disconnected()
 
         def fired(x, rec=rec):
             rec['fired'] += 1
+            if rec['fired'] == 1:
+                for _ in range(rec['submit']):
+                    self.sim.probe('submit-from-disconnect-observer')
+                    self.op_submit(post_loss=True)
             return None
         d.addBoth(fired)
 
